@@ -3,7 +3,9 @@
        ciphertexts `ctValid ↔ CtCanon ∧ scale condition`; the only difference to `CtCanon` is the empty ciphertext.
    Y2  for negate, add / sub (plain and balanced), dyadic / BGV / plain multiply, the three scheme-specific modulus switches, the drop,
        switchKey, relinearize, applyGalois: total on valid operands in the prescribed representation, result valid at the result
-       level — including operands of size 0; for BGV the exact condition on the correction factors, with witnesses that it is needed.
+       level — including operands of size 0; for BGV the exact condition on the correction factors (units modulo t), with witnesses at a
+       COMPOSITE plain modulus that it is needed, and the strong closure (no unit hypothesis) for PRIME t (`*_valid_prime`).
+       The accepted BGV range is 1 ≤ cf ≤ t − 1 (`is_metadata_valid_for` after the repair `>` → `>=`; `ctValid_rejects_cf_t`).
    Y3  refusals on representation / scheme / level-count / size mismatches (`evaluator_refusals`), and what the model does not check.
    Y4  size law n1 + n2 − 1 of the products; the model does NOT refuse oversize results (the code does, through `resize`).
    Helper names carry the prefix `c06y_`; the user-facing theorems are at the end under "Property theorems".
@@ -12,6 +14,7 @@
 import Heathcliff.Proofs.C02V
 import Heathcliff.Proofs.C05U
 import Heathcliff.Proofs.C04T
+import Mathlib.Data.Nat.Prime.Basic
 namespace HC
 
 /-! ## Y1: `ctValid` versus `CtCanon` -/
@@ -208,24 +211,20 @@ theorem c06y_balanced_core {l : Level} (hq : c02v_QsWF l) (ht : l.t.WF) {a b : C
   exact c06y_balanced_core' hq ha hb sub hntt hne (by omega) (by omega) hbal
 
 theorem c06y_bgv_of_cf_ne {l : Level} {f1 f2 : Nat} (h1 : c02v_cfOk l f1) (h2 : c02v_cfOk l f2) (hne : f1 ≠ f2) :
-    l.scheme = .bgv ∧ f1 ≠ 0 ∧ f1 ≤ l.t.value ∧ f2 ≠ 0 ∧ f2 ≤ l.t.value := by
+    l.scheme = .bgv ∧ f1 ≠ 0 ∧ f1 < l.t.value ∧ f2 ≠ 0 ∧ f2 < l.t.value := by
   unfold c02v_cfOk at h1 h2
   cases hs : l.scheme <;> rw [hs] at h1 h2 <;> simp only at h1 h2
   · omega
   · omega
   · exact ⟨rfl, h1.1, h1.2, h2.1, h2.2⟩
 
-theorem c06y_cfOk_bgv {l : Level} (hs : l.scheme = .bgv) (f : Nat) : c02v_cfOk l f ↔ f ≠ 0 ∧ f ≤ l.t.value := by
+theorem c06y_cfOk_bgv {l : Level} (hs : l.scheme = .bgv) (f : Nat) : c02v_cfOk l f ↔ f ≠ 0 ∧ f < l.t.value := by
   unfold c02v_cfOk
   rw [hs]
 
-theorem c06y_lt_of_coprime {f t : Nat} (h2 : 2 ≤ t) (hle : f ≤ t) (hc : Nat.Coprime f t) : f < t := by
-  rcases Nat.lt_or_ge f t with h | h
-  · exact h
-  · have : f = t := by omega
-    subst this
-    rw [Nat.Coprime, Nat.gcd_self] at hc
-    omega
+/-- for a PRIME modulus every factor in the accepted range 1 ≤ f < t is a unit -/
+theorem c06y_coprime_of_prime {f t : Nat} (hp : Nat.Prime t) (h0 : f ≠ 0) (hlt : f < t) : Nat.Coprime f t :=
+  ((Nat.Prime.coprime_iff_not_dvd hp).mpr (Nat.not_dvd_of_pos_of_lt (Nat.pos_of_ne_zero h0) hlt)).symm
 
 theorem c06y_ne_zero_of_coprime {f t : Nat} (h2 : 2 ≤ t) (hc : Nat.Coprime f t) : f ≠ 0 := by
   rintro rfl
@@ -254,16 +253,13 @@ theorem c06y_unit_cancel {cf invt qL t : Nat} (h1 : (invt * qL) % t = 1) (h0 : (
     rw [Nat.mod_mul_mod, Nat.mul_assoc, ← Nat.mul_mod_mod, h1, Nat.mul_one]
   rw [e, h0, Nat.zero_mul, Nat.zero_mod]
 
-/-- the new BGV correction factor `cf·q_L^{-1} mod t` of a factor in [1, t] vanishes exactly for `cf = t` -/
-theorem c06y_bgv_cf_next {cf invt qL t : Nat} (ht : 2 ≤ t) (h1 : (invt * qL) % t = 1) (hc0 : cf ≠ 0) (hct : cf ≤ t) :
-    (cf * invt) % t ≠ 0 ↔ cf ≠ t := by
-  constructor
-  · rintro h rfl
-    exact h (Nat.mul_mod_right _ _)
-  · intro hne h0
-    have := c06y_unit_cancel h1 h0
-    rw [Nat.mod_eq_of_lt (by omega)] at this
-    exact hc0 this
+/-- the new BGV correction factor `cf·q_L^{-1} mod t` of a factor in [1, t − 1] never vanishes (q_L^{-1} is a unit) -/
+theorem c06y_bgv_cf_next {cf invt qL t : Nat} (h1 : (invt * qL) % t = 1) (hc0 : cf ≠ 0) (hct : cf < t) :
+    (cf * invt) % t ≠ 0 := by
+  intro h0
+  have := c06y_unit_cancel h1 h0
+  rw [Nat.mod_eq_of_lt hct] at this
+  exact hc0 this
 
 theorem c06y_mapM_length {α β : Type} (F : α → R β) : ∀ (xs : List α) (ys : List β), xs.mapM F = .ok ys → ys.length = xs.length
   | [], ys, h => by
@@ -453,7 +449,7 @@ theorem ctValid_of_CtCanon {l : Level} {ct : Ct} {s1 s2 : Bool} (h : CtCanon l c
   c06y_valid_mk (Or.inr ⟨h.two_le, h.le16⟩) h.canon hs h.cf
 
 /-- Y1: for a NON-EMPTY ciphertext, validity is canonicity plus the scale condition (an iff: the correction-factor ranges of the two
-    predicates coincide, both accept the non-unit `cf = t` for BGV) -/
+    predicates coincide, for BGV both are 1 ≤ cf ≤ t − 1) -/
 theorem ctValid_iff_CtCanon {l : Level} {ct : Ct} {s1 s2 : Bool} (h0 : ct.polys.size ≠ 0) :
     ctValid l ct s1 s2 = true ↔ CtCanon l ct ∧ c06y_scaleOk l s1 s2 :=
   ⟨fun h => ⟨c06y_canon_of_valid (c06y_valid_parts h) h0, (c06y_valid_parts h).scale⟩, fun h => ctValid_of_CtCanon h.1 h.2⟩
@@ -470,12 +466,21 @@ theorem ctValid_flags {l : Level} {ct : Ct} {s1 s2 s1' s2' : Bool} (h : ctValid 
   let v := c06y_valid_parts h
   c06y_valid_mk v.size v.canon hs v.cf
 
-/-- Y1 (finding about the predicate): for BGV, replacing the correction factor of a valid ciphertext by `t` (NOT a unit modulo t)
-    keeps it valid -/
-theorem ctValid_accepts_cf_t {l : Level} {ct : Ct} {s1 s2 : Bool} (hs : l.scheme = .bgv) (ht : l.t.value ≠ 0)
-    (h : ctValid l ct s1 s2 = true) : ctValid l { ct with cf := l.t.value } s1 s2 = true :=
+/-- Y1 (the repaired boundary): for BGV a correction factor EQUAL to `t` (≡ 0, not a unit modulo t) is rejected, whatever the rest of
+    the ciphertext is (before the repair of `is_metadata_valid_for` it was accepted: `correction_factor > plain_modulus`) -/
+theorem ctValid_rejects_cf_t {l : Level} {ct : Ct} {s1 s2 : Bool} (hs : l.scheme = .bgv) :
+    ctValid l { ct with cf := l.t.value } s1 s2 = false := by
+  cases h : ctValid l { ct with cf := l.t.value } s1 s2
+  · rfl
+  · exact absurd ((c06y_cfOk_bgv hs _).mp (c06y_valid_parts h).cf).2 (Nat.lt_irrefl _)
+
+/-- Y1: for BGV the accepted correction factors are exactly 1 ≤ cf ≤ t − 1: replacing the factor of a valid ciphertext by `f` keeps it
+    valid iff `f ≠ 0 ∧ f < t` -/
+theorem ctValid_bgv_cf_range {l : Level} {ct : Ct} {s1 s2 : Bool} (hs : l.scheme = .bgv) (h : ctValid l ct s1 s2 = true) (f : Nat) :
+    ctValid l { ct with cf := f } s1 s2 = true ↔ f ≠ 0 ∧ f < l.t.value :=
   let v := c06y_valid_parts h
-  c06y_valid_mk v.size v.canon v.scale ((c06y_cfOk_bgv hs _).mpr ⟨ht, Nat.le_refl _⟩)
+  ⟨fun h' => (c06y_cfOk_bgv hs _).mp (c06y_valid_parts h').cf,
+   fun hf => c06y_valid_mk v.size v.canon v.scale ((c06y_cfOk_bgv hs _).mpr hf)⟩
 
 /-- Y2 `negate`: total on valid ciphertexts, result valid (same size, representation, correction factor) -/
 theorem ctNegate_valid {l : Level} (hq : c02v_QsWF l) {a : Ct} {s1 s2 : Bool} (ha : ctValid l a s1 s2 = true) :
@@ -528,8 +533,8 @@ theorem ctTranslateBalanced_valid {l : Level} (hq : c02v_QsWF l) (ht : l.scheme 
     obtain ⟨ca, cb⟩ := hu hcf
     have htw := ht hs
     have h2 := htw.two_le
-    have h1' := c06y_lt_of_coprime h2 a1 ca
-    have h2' := c06y_lt_of_coprime h2 b1 cb
+    have h1' := a1
+    have h2' := b1
     obtain ⟨⟨f, e1, e2⟩, hbal⟩ := balance_total htw h1' h2' ca
     obtain ⟨r, hr, cr, sr, nr, fr⟩ := c06y_balanced_core hq htw va.canon vb.canon sub hntt hcf h1' h2' hbal
     obtain ⟨_, _, flt⟩ := balance_spec htw h1' h2' hbal
@@ -537,7 +542,7 @@ theorem ctTranslateBalanced_valid {l : Level} (hq : c02v_QsWF l) (ht : l.scheme 
     have fc := (i4 cb).2
     refine ⟨r, hr, c06y_valid_mk (by rw [sr]; exact c06y_size_max va.size vb.size) cr va.scale ?_, sr, nr⟩
     rw [fr]
-    exact (c06y_cfOk_bgv hs f).mpr ⟨c06y_ne_zero_of_coprime h2 fc, flt.le⟩
+    exact (c06y_cfOk_bgv hs f).mpr ⟨c06y_ne_zero_of_coprime h2 fc, flt⟩
 
 /-- Y2, `.ok` form: whenever the balanced add / sub of valid operands succeeds and (in case the factors differ) the SECOND factor
     is a unit, the result is valid (success already certifies that the first factor is a unit) -/
@@ -558,11 +563,10 @@ theorem ctTranslateBalanced_preserves_valid {l : Level} (hq : c02v_QsWF l) (ht :
       rw [ctTranslateBalanced_refuse htw a b sub hcf (by omega) hc] at hr; cases hr
     have hntt : a.ntt = b.ntt := by
       by_contra hn
-      have h2 := htw.two_le
-      have h1' := c06y_lt_of_coprime h2 a1 ca
+      have h1' := a1
       -- the representation check happens inside `ctTranslate`, after the scaling
       obtain ⟨_, _, b0, b1⟩ := c06y_bgv_of_cf_ne va.cf vb.cf hcf |>.2
-      have h2' := c06y_lt_of_coprime h2 b1 (hu hcf)
+      have h2' := b1
       obtain ⟨⟨f, e1, e2⟩, hbal⟩ := balance_total htw h1' h2' ca
       obtain ⟨he1, he2, _, _⟩ := c02v_balance_inv htw h1' h2' hbal
       obtain ⟨a', ha', _, _, na, _⟩ := c06y_scale_core hq f (e := e1) (by omega) va.canon
@@ -575,6 +579,17 @@ theorem ctTranslateBalanced_preserves_valid {l : Level} (hq : c02v_QsWF l) (ht :
       cases hr
     obtain ⟨r', hr', hv, _⟩ := ctTranslateBalanced_valid hq ht ha hb sub hntt (fun h => ⟨ca, hu h⟩)
     rw [hr] at hr'; cases hr'; exact hv
+
+/-- Y2 `add` / `sub` with balancing, PRIME plain modulus: strong closure — total on valid operands in the same representation, the
+    result is valid; no unit hypothesis (every accepted factor 1 ≤ cf ≤ t − 1 is a unit modulo a prime) -/
+theorem ctTranslateBalanced_valid_prime {l : Level} (hq : c02v_QsWF l) (ht : l.scheme = .bgv → l.t.WF)
+    (hp : l.scheme = .bgv → Nat.Prime l.t.value) {a b : Ct} {s1 s2 s1' s2' : Bool} (ha : ctValid l a s1 s2 = true)
+    (hb : ctValid l b s1' s2' = true) (sub : Bool) (hntt : a.ntt = b.ntt) :
+    ∃ r, ctTranslateBalanced l a b sub = .ok r ∧ ctValid l r s1 s2 = true ∧
+      r.polys.size = max a.polys.size b.polys.size ∧ r.ntt = a.ntt :=
+  ctTranslateBalanced_valid hq ht ha hb sub hntt (fun hne => by
+    obtain ⟨hs, a0, a1, b0, b1⟩ := c06y_bgv_of_cf_ne (c06y_valid_parts ha).cf (c06y_valid_parts hb).cf hne
+    exact ⟨c06y_coprime_of_prime (hp hs) a0 a1, c06y_coprime_of_prime (hp hs) b0 b1⟩)
 
 /-- Y3 / Y4 refusal: an empty operand is refused by the dyadic product -/
 theorem ctMultiplyDyadic_refuse_empty (l : Level) (a b : Ct) (hna : a.ntt = true) (hnb : b.ntt = true)
@@ -660,11 +675,11 @@ theorem bgvMultiply_valid_iff {l : Level} (hq : c02v_QsWF l) (ht : l.t.WF) (hs :
   refine ⟨_, bgvMultiply_spec ht hc (by omega) (by omega), sc, nc, rfl, fun hr => ?_, fun hr => ?_⟩
   · have v := c06y_valid_parts hr
     have hsz : c.polys.size = 0 ∨ (2 ≤ c.polys.size ∧ c.polys.size ≤ 16) := v.size
-    have hcf : (a.cf * b.cf) % l.t.value ≠ 0 ∧ (a.cf * b.cf) % l.t.value ≤ l.t.value := (c06y_cfOk_bgv hs _).mp v.cf
+    have hcf : (a.cf * b.cf) % l.t.value ≠ 0 ∧ (a.cf * b.cf) % l.t.value < l.t.value := (c06y_cfOk_bgv hs _).mp v.cf
     have : c.polys.size ≠ 0 := by rw [sc]; have := va.size; have := vb.size; omega
     exact ⟨by rw [← sc]; exact (by omega : c.polys.size ≤ 16), hcf.1⟩
   · have vc := c06y_valid_parts (hv.mpr hr.1)
-    exact c06y_valid_mk vc.size cc va.scale ((c06y_cfOk_bgv hs _).mpr ⟨hr.2, (Nat.mod_lt _ (by omega)).le⟩)
+    exact c06y_valid_mk vc.size cc va.scale ((c06y_cfOk_bgv hs _).mpr ⟨hr.2, Nat.mod_lt _ (by omega)⟩)
 
 /-- Y2 `bgv_multiply`, unit correction factors: the result is valid -/
 theorem bgvMultiply_valid {l : Level} (hq : c02v_QsWF l) (ht : l.t.WF) (hs : l.scheme = .bgv) {a b : Ct}
@@ -695,6 +710,17 @@ theorem bgvMultiply_preserves_valid {l : Level} (hq : c02v_QsWF l) (ht : l.t.WF)
   obtain ⟨r', hr', hv, _⟩ := bgvMultiply_valid hq ht hs ha hb hna hnb h0.1 h0.2 h16 c1 c2
   rw [hr] at hr'; cases hr'; exact hv
 
+/-- Y2 `bgv_multiply`, PRIME plain modulus: strong closure — valid non-empty NTT-form operands give a valid result (with a unit
+    correction factor); no unit hypothesis (every accepted factor 1 ≤ cf ≤ t − 1 is a unit modulo a prime) -/
+theorem bgvMultiply_valid_prime {l : Level} (hq : c02v_QsWF l) (ht : l.t.WF) (hp : Nat.Prime l.t.value) (hs : l.scheme = .bgv)
+    {a b : Ct} {s1 s2 s1' s2' : Bool} (ha : ctValid l a s1 s2 = true) (hb : ctValid l b s1' s2' = true) (hna : a.ntt = true)
+    (hnb : b.ntt = true) (h0a : a.polys.size ≠ 0) (h0b : b.polys.size ≠ 0) (h16 : a.polys.size + b.polys.size - 1 ≤ 16) :
+    ∃ r, bgvMultiply l a b = .ok r ∧ ctValid l r s1 s2 = true ∧ r.polys.size = a.polys.size + b.polys.size - 1 ∧
+      r.ntt = true ∧ r.cf = (a.cf * b.cf) % l.t.value ∧ Nat.Coprime r.cf l.t.value :=
+  have fa := (c06y_cfOk_bgv hs _).mp (c06y_valid_parts ha).cf
+  have fb := (c06y_cfOk_bgv hs _).mp (c06y_valid_parts hb).cf
+  bgvMultiply_valid hq ht hs ha hb hna hnb h0a h0b h16 (c06y_coprime_of_prime hp fa.1 fa.2) (c06y_coprime_of_prime hp fb.1 fb.2)
+
 /-- Y2 `multiply_plain_ntt`: total on valid NTT-form ciphertexts and canonical plaintexts, result valid -/
 theorem ctMultiplyPlainNtt_valid {l : Level} (hq : c02v_QsWF l) {a : Ct} {s1 s2 : Bool} (ha : ctValid l a s1 s2 = true)
     (hna : a.ntt = true) {p : RnsPoly} (hp : RnsCanon l p) :
@@ -718,50 +744,54 @@ theorem ctMultiplyPlainNtt_preserves_valid {l : Level} (hq : c02v_QsWF l) {a r :
   obtain ⟨r', hr', hv, _⟩ := ctMultiplyPlainNtt_valid hq ha hna hp
   rw [hr] at hr'; cases hr'; exact hv
 
-/-! ### the unit hypothesis on BGV correction factors is needed: witnesses at the level `c02v_exLevel` (q = 17·17, N = 2, t = 5) -/
+/-! ### the unit hypothesis on BGV correction factors is needed when t is COMPOSITE: validity (1 ≤ cf ≤ t − 1) does not imply that the
+      factor is a unit.  Witnesses at the level `c02v_exLevel4` (q = 17·17, N = 2, t = 4; the non-unit factor is 2) -/
 
 /-- `c02v_exCt2` with the correction factor replaced by `f` -/
 def c06y_exCt (f : Nat) : Ct := { c02v_exCt2 with cf := f }
 
-theorem c06y_exCt_valid (f : Nat) (h0 : f ≠ 0) (h5 : f ≤ 5) : ctValid c02v_exLevel (c06y_exCt f) true false = true :=
-  ctValid_of_CtCanon ⟨⟨c02v_exCt2_canon.two_le, c02v_exCt2_canon.le16, c02v_exCt2_canon.canon⟩, ⟨h0, h5⟩⟩ (rfl : true = true)
+theorem c06y_exCt_valid (f : Nat) (h0 : f ≠ 0) (h4 : f < 4) : ctValid c02v_exLevel4 (c06y_exCt f) true false = true :=
+  ctValid_of_CtCanon ⟨⟨c02v_exCt2_canon4.two_le, c02v_exCt2_canon4.le16, c02v_exCt2_canon4.canon⟩, ⟨h0, h4⟩⟩ (rfl : true = true)
 
-/-- FINDING (validity predicate): `bgv_multiply` of two VALID ciphertexts (correction factors t = 5 and 2) succeeds and returns a
-    ciphertext with correction factor 0, which is NOT valid: validity is not preserved without the unit hypothesis -/
+/-- FINDING (validity predicate, composite t): `bgv_multiply` of two VALID ciphertexts (t = 4, correction factors 2 and 2, in the accepted
+    range but not units) succeeds and returns a ciphertext with correction factor 0, which is NOT valid: validity is not preserved
+    without the unit hypothesis when t is composite (for prime t it is: `bgvMultiply_valid_prime`) -/
 theorem bgvMultiply_valid_needs_unit :
-    ∃ a b r, ctValid c02v_exLevel a true false = true ∧ ctValid c02v_exLevel b true false = true ∧
-      bgvMultiply c02v_exLevel a b = .ok r ∧ r.cf = 0 ∧ ctValid c02v_exLevel r true false = false := by
-  have ha := c06y_exCt_valid 5 (by decide) (by decide)
-  have hb := c06y_exCt_valid 2 (by decide) (by decide)
-  obtain ⟨r, hr, _, _, fr, hv⟩ := bgvMultiply_valid_iff c02v_exLevel_qsWF c02v_exT_wf rfl ha hb rfl rfl (by decide) (by decide)
+    ∃ a b r, ctValid c02v_exLevel4 a true false = true ∧ ctValid c02v_exLevel4 b true false = true ∧
+      bgvMultiply c02v_exLevel4 a b = .ok r ∧ r.cf = 0 ∧ ctValid c02v_exLevel4 r true false = false := by
+  have ha := c06y_exCt_valid 2 (by decide) (by decide)
+  obtain ⟨r, hr, _, _, fr, hv⟩ := bgvMultiply_valid_iff c02v_exLevel4_qsWF c02v_exT4_wf rfl ha ha rfl rfl (by decide) (by decide)
   have f0 : r.cf = 0 := fr
-  refine ⟨_, _, r, ha, hb, hr, f0, ?_⟩
-  cases h : ctValid c02v_exLevel r true false
+  refine ⟨_, _, r, ha, ha, hr, f0, ?_⟩
+  cases h : ctValid c02v_exLevel4 r true false
   · rfl
   · exact absurd f0 ((c06y_cfOk_bgv rfl _).mp (c06y_valid_parts h).cf).1
 
-/-- FINDING: a VALID first operand (correction factor t) is REFUSED by the balanced add / sub ("accepted by any later operation"
-    fails for the non-unit factor that `ctValid` admits) -/
+/-- FINDING (composite t): a VALID first operand (t = 4, correction factor 2) is REFUSED by the balanced add / sub ("accepted by any
+    later operation" fails for the non-unit factors that `ctValid` admits when t is composite) -/
 theorem ctTranslateBalanced_refuses_valid (sub : Bool) :
-    ∃ a b, ctValid c02v_exLevel a true false = true ∧ ctValid c02v_exLevel b true false = true ∧ a.ntt = b.ntt ∧
-      ctTranslateBalanced c02v_exLevel a b sub = .error .refused :=
-  ⟨c06y_exCt 5, c06y_exCt 2, c06y_exCt_valid 5 (by decide) (by decide), c06y_exCt_valid 2 (by decide) (by decide), rfl,
-    ctTranslateBalanced_refuse c02v_exT_wf _ _ sub (by decide) (by decide) (by decide)⟩
+    ∃ a b, ctValid c02v_exLevel4 a true false = true ∧ ctValid c02v_exLevel4 b true false = true ∧ a.ntt = b.ntt ∧
+      ctTranslateBalanced c02v_exLevel4 a b sub = .error .refused :=
+  ⟨c06y_exCt 2, c06y_exCt 3, c06y_exCt_valid 2 (by decide) (by decide), c06y_exCt_valid 3 (by decide) (by decide), rfl,
+    ctTranslateBalanced_refuse c02v_exT4_wf _ _ sub (by decide) (by decide) (by decide)⟩
 
-/-- FINDING: with a VALID second operand of correction factor t the balanced add / sub SUCCEEDS with correction factor 0:
-    the result is not valid -/
-theorem ctTranslateBalanced_valid_needs_unit (sub : Bool) :
-    ∃ a b r, ctValid c02v_exLevel a true false = true ∧ ctValid c02v_exLevel b true false = true ∧
-      ctTranslateBalanced c02v_exLevel a b sub = .ok r ∧ r.cf = 0 ∧ ctValid c02v_exLevel r true false = false := by
-  have ha := c06y_exCt_valid 2 (by decide) (by decide)
-  have hb := c06y_exCt_valid 5 (by decide) (by decide)
-  have hbal : balanceCorrectionFactors (c06y_exCt 2).cf (c06y_exCt 5).cf c02v_exLevel.t = .ok (0, 0, 1) := by decide
-  obtain ⟨r, hr, _, _, _, fr⟩ := c06y_balanced_core' c02v_exLevel_qsWF (c06y_valid_parts ha).canon (c06y_valid_parts hb).canon
+/-- FINDING (composite t): with a unit first factor (1) and a VALID non-unit second factor (2, t = 4) the balanced add / sub SUCCEEDS and
+    the result is valid, but its correction factor (2) is again not a unit: validity does not imply that the BGV factor is a unit.
+    (Before the repair the non-unit factor `t` itself was accepted and this operation returned the INVALID factor 0; with the
+    accepted range 1 ≤ cf ≤ t − 1 no input with result factor 0 was found for t < 130.) -/
+theorem ctTranslateBalanced_valid_nonunit_result (sub : Bool) :
+    ∃ a b r, ctValid c02v_exLevel4 a true false = true ∧ ctValid c02v_exLevel4 b true false = true ∧
+      ctTranslateBalanced c02v_exLevel4 a b sub = .ok r ∧ ctValid c02v_exLevel4 r true false = true ∧
+      ¬ Nat.Coprime r.cf c02v_exLevel4.t.value := by
+  have ha := c06y_exCt_valid 1 (by decide) (by decide)
+  have hb := c06y_exCt_valid 2 (by decide) (by decide)
+  have hbal : balanceCorrectionFactors (c06y_exCt 1).cf (c06y_exCt 2).cf c02v_exLevel4.t = .ok (2, 2, 1) := by decide
+  obtain ⟨r, hr, cr, sr, _, fr⟩ := c06y_balanced_core' c02v_exLevel4_qsWF (c06y_valid_parts ha).canon (c06y_valid_parts hb).canon
     sub rfl (by decide) (by decide) (by decide) hbal
-  refine ⟨_, _, r, ha, hb, hr, fr, ?_⟩
-  cases h : ctValid c02v_exLevel r true false
-  · rfl
-  · exact absurd fr ((c06y_cfOk_bgv rfl _).mp (c06y_valid_parts h).cf).1
+  refine ⟨_, _, r, ha, hb, hr, c06y_valid_mk (Or.inr ?_) cr (rfl : true = true) ?_, ?_⟩
+  · rw [sr]; decide
+  · rw [fr]; exact ⟨by decide, by decide⟩
+  · rw [fr]; decide
 
 /-! ### modulus switching: the result is valid at the NEXT level -/
 
@@ -812,14 +842,14 @@ theorem modSwitchScaleNext_ckks_valid {l l' : Level} (hl : l.WF) (h : c05u_ToolO
   rw [sr] at hk
   exact (modSwitchScaleNext_next_canon (p := ct.polys.getD k #[]) h hn.toc05u_IsNext).2.1 (dr k hk)
 
-/-- Y2 BGV `mod_switch_to_next`: total on valid NTT-form ciphertexts; the polynomials are canonical at the next level, the new
-    correction factor is `cf·q_L^{-1} mod t`, and the result is valid IF AND ONLY IF `cf ≠ t` (in particular for every unit) -/
-theorem modSwitchScaleNext_bgv_valid_iff {l l' : Level} (hl : l.WF) (h : c05u_ToolOK l) (hg : c05u_BgvOK l)
+/-- Y2 BGV `mod_switch_to_next`, strong closure: total on valid NTT-form ciphertexts; the polynomials are canonical at the next level,
+    the new correction factor is `cf·q_L^{-1} mod t`, and the result is VALID at the next level — for every valid operand, whatever t is
+    (q_L^{-1} is a unit modulo t, so a factor in [1, t − 1] cannot be mapped to 0) -/
+theorem modSwitchScaleNext_bgv_valid_closed {l l' : Level} (hl : l.WF) (h : c05u_ToolOK l) (hg : c05u_BgvOK l)
     (hn : c06y_NextLevel l l') (h2 : 2 ≤ l.size) (hs : l.scheme = .bgv) {ct : Ct} {s1 s2 : Bool}
     (hv : ctValid l ct s1 s2 = true) (hntt : ct.ntt = true) :
-    ∃ r, modSwitchScaleNext l ct = .ok r ∧ r.polys.size = ct.polys.size ∧ r.ntt = true ∧
-      r.cf = (ct.cf * l.tool.invQLastModT) % l.t.value ∧ c05u_CtCanon l' r ∧
-      (ctValid l' r s1 s2 = true ↔ ct.cf ≠ l.t.value) := by
+    ∃ r, modSwitchScaleNext l ct = .ok r ∧ ctValid l' r s1 s2 = true ∧ r.polys.size = ct.polys.size ∧ r.ntt = true ∧
+      r.cf = (ct.cf * l.tool.invQLastModT) % l.t.value ∧ c05u_CtCanon l' r := by
   have v := c06y_valid_parts hv
   have fc := (c06y_cfOk_bgv hs _).mp v.cf
   have htlt := hg.twf.lt
@@ -829,23 +859,45 @@ theorem modSwitchScaleNext_bgv_valid_iff {l l' : Level} (hl : l.WF) (h : c05u_To
   have cr : c05u_CtCanon l' r := fun k hk => by
     rw [sr] at hk
     exact (modSwitchScaleNext_next_canon (p := ct.polys.getD k #[]) h hn.toc05u_IsNext).2.2 (dr k hk)
-  have key := c06y_bgv_cf_next ht2 hg.invt fc.1 fc.2
-  refine ⟨r, hr, sr, nr, fr, cr, fun hv' => ?_, fun hne => ?_⟩
-  · have := ((c06y_cfOk_bgv hs' _).mp (c06y_valid_parts hv').cf).1
-    rw [fr] at this
-    exact key.mp this
-  · refine c06y_valid_mk (by rw [sr]; exact v.size) cr (c06y_next_scale hn v.scale) ((c06y_cfOk_bgv hs' _).mpr ?_)
-    rw [fr, hn.t]
-    exact ⟨key.mpr hne, (Nat.mod_lt _ (by omega)).le⟩
+  have key := c06y_bgv_cf_next hg.invt fc.1 fc.2
+  refine ⟨r, hr, ?_, sr, nr, fr, cr⟩
+  refine c06y_valid_mk (by rw [sr]; exact v.size) cr (c06y_next_scale hn v.scale) ((c06y_cfOk_bgv hs' _).mpr ?_)
+  rw [fr, hn.t]
+  exact ⟨key, Nat.mod_lt _ (by omega)⟩
+
+/-- Y2 BGV `mod_switch_to_next`: total on valid NTT-form ciphertexts; the polynomials are canonical at the next level, the new
+    correction factor is `cf·q_L^{-1} mod t`, and the result is valid IF AND ONLY IF `cf ≠ t`.  (Statement kept from before the repair
+    of the validity predicate; since `ctValid` now rejects `cf = t`, both sides hold for every valid operand:
+    `modSwitchScaleNext_bgv_valid_closed`.) -/
+theorem modSwitchScaleNext_bgv_valid_iff {l l' : Level} (hl : l.WF) (h : c05u_ToolOK l) (hg : c05u_BgvOK l)
+    (hn : c06y_NextLevel l l') (h2 : 2 ≤ l.size) (hs : l.scheme = .bgv) {ct : Ct} {s1 s2 : Bool}
+    (hv : ctValid l ct s1 s2 = true) (hntt : ct.ntt = true) :
+    ∃ r, modSwitchScaleNext l ct = .ok r ∧ r.polys.size = ct.polys.size ∧ r.ntt = true ∧
+      r.cf = (ct.cf * l.tool.invQLastModT) % l.t.value ∧ c05u_CtCanon l' r ∧
+      (ctValid l' r s1 s2 = true ↔ ct.cf ≠ l.t.value) := by
+  obtain ⟨r, hr, hv', sr, nr, fr, cr⟩ := modSwitchScaleNext_bgv_valid_closed hl h hg hn h2 hs hv hntt
+  have fc := (c06y_cfOk_bgv hs _).mp (c06y_valid_parts hv).cf
+  exact ⟨r, hr, sr, nr, fr, cr, fun _ => Nat.ne_of_lt fc.2, fun _ => hv'⟩
 
 theorem modSwitchScaleNext_bgv_valid {l l' : Level} (hl : l.WF) (h : c05u_ToolOK l) (hg : c05u_BgvOK l)
     (hn : c06y_NextLevel l l') (h2 : 2 ≤ l.size) (hs : l.scheme = .bgv) {ct : Ct} {s1 s2 : Bool}
-    (hv : ctValid l ct s1 s2 = true) (hntt : ct.ntt = true) (hu : Nat.Coprime ct.cf l.t.value) :
+    (hv : ctValid l ct s1 s2 = true) (hntt : ct.ntt = true) (_hu : Nat.Coprime ct.cf l.t.value) :
     ∃ r, modSwitchScaleNext l ct = .ok r ∧ ctValid l' r s1 s2 = true ∧ r.polys.size = ct.polys.size ∧ r.ntt = true ∧
       r.cf = (ct.cf * l.tool.invQLastModT) % l.t.value := by
-  obtain ⟨r, hr, sr, nr, fr, _, hiff⟩ := modSwitchScaleNext_bgv_valid_iff hl h hg hn h2 hs hv hntt
-  have fc := (c06y_cfOk_bgv hs _).mp (c06y_valid_parts hv).cf
-  exact ⟨r, hr, hiff.mpr (Nat.ne_of_lt (c06y_lt_of_coprime hg.twf.two_le fc.2 hu)), sr, nr, fr⟩
+  obtain ⟨r, hr, hv', sr, nr, fr, _⟩ := modSwitchScaleNext_bgv_valid_closed hl h hg hn h2 hs hv hntt
+  exact ⟨r, hr, hv', sr, nr, fr⟩
+
+/-- Y2 BGV `mod_switch_to_next`, PRIME plain modulus: valid operand ⇒ valid result at the next level, and the new correction factor
+    is again a unit (no unit hypothesis on the operand) -/
+theorem modSwitchScaleNext_bgv_valid_prime {l l' : Level} (hl : l.WF) (h : c05u_ToolOK l) (hg : c05u_BgvOK l)
+    (hn : c06y_NextLevel l l') (h2 : 2 ≤ l.size) (hs : l.scheme = .bgv) (hp : Nat.Prime l.t.value) {ct : Ct} {s1 s2 : Bool}
+    (hv : ctValid l ct s1 s2 = true) (hntt : ct.ntt = true) :
+    ∃ r, modSwitchScaleNext l ct = .ok r ∧ ctValid l' r s1 s2 = true ∧ r.polys.size = ct.polys.size ∧ r.ntt = true ∧
+      r.cf = (ct.cf * l.tool.invQLastModT) % l.t.value ∧ Nat.Coprime r.cf l'.t.value := by
+  obtain ⟨r, hr, hv', sr, nr, fr, _⟩ := modSwitchScaleNext_bgv_valid_closed hl h hg hn h2 hs hv hntt
+  have hs' : l'.scheme = .bgv := by rw [hn.scheme, hs]
+  have fc := (c06y_cfOk_bgv hs' _).mp (c06y_valid_parts hv').cf
+  exact ⟨r, hr, hv', sr, nr, fr, c06y_coprime_of_prime (by rw [hn.t]; exact hp) fc.1 fc.2⟩
 
 /-- Y2, `.ok` form for all three schemes: whenever the scheme-specific switch of a valid ciphertext succeeds (and, for BGV, the
     correction factor is not t), the result is valid at the next level.  `Level.WF` is needed for the NTT-form schemes only. -/
@@ -868,6 +920,14 @@ theorem modSwitchScaleNext_preserves_valid {l l' : Level} (hl : l.scheme ≠ .bf
       by_contra h'; rw [(modSwitchScaleNext_refusals ct).2.2.2 hs (by simpa using h')] at hr; cases hr
     obtain ⟨r', hr', _, _, _, _, hiff⟩ := modSwitchScaleNext_bgv_valid_iff (hl (by rw [hs]; decide)) h (hg hs) hn h2 hs hv hntt
     rw [hr] at hr'; cases hr'; exact hiff.mpr (hcf hs)
+
+/-- Y2, `.ok` form for all three schemes, strong closure: whenever the scheme-specific switch of a valid ciphertext succeeds, the result is
+    valid at the next level (no side condition on the BGV correction factor: `ctValid` rejects `cf = t`) -/
+theorem modSwitchScaleNext_preserves_valid_closed {l l' : Level} (hl : l.scheme ≠ .bfv → l.WF) (h : c05u_ToolOK l)
+    (hg : l.scheme = .bgv → c05u_BgvOK l) (hn : c06y_NextLevel l l') {ct r : Ct} {s1 s2 : Bool}
+    (hv : ctValid l ct s1 s2 = true) (hr : modSwitchScaleNext l ct = .ok r) : ctValid l' r s1 s2 = true :=
+  modSwitchScaleNext_preserves_valid hl h hg hn hv
+    (fun hs => Nat.ne_of_lt ((c06y_cfOk_bgv hs _).mp (c06y_valid_parts hv).cf).2) hr
 
 /-! ### Y3: refusals — metadata the operations inspect -/
 
